@@ -62,6 +62,7 @@ template<class K> struct HasLayout { static constexpr bool value = false; };
 template<> struct HasLayout<KCSR> { static constexpr bool value = true; };
 template<> struct HasLayout<KBCSR> { static constexpr bool value = true; };
 template<> struct HasLayout<KBAND> { static constexpr bool value = true; };
+template<> struct HasLayout<KCSCR> { static constexpr bool value = true; };
 
 typedef unsigned int U32;
 typedef unsigned long U64;
@@ -107,8 +108,9 @@ static const int NTUP = 4;
 static TBox tups[NTUP];
 struct LBox { void* obj = nullptr; int lk = 0, it = 0; bool alive() const { return obj != nullptr; } };
 
-static const int NSLOT = 8, NLAY = 4;
-static Box slots[NSLOT];
+static const int MAXSLOT = 320, NLAY = 4;
+static int NSLOT = 8;     // `SLOTS n` as the first tokens of a line raises it (boundary-size stream)
+static Box slots[MAXSLOT];
 static LBox lays[NLAY];
 
 struct BadOp { std::string why; };
@@ -214,6 +216,7 @@ static void snapshot(std::ostream& o)
           show_array(o, nm, L._indices[j], L._indices_size.at(j));
       };
       if(b.lk == 0) emit(*static_cast<SparseLayout<I, SparseLayoutId::lt_csr>*>(b.obj));
+      else if(b.lk == 2) emit(*static_cast<SparseLayout<I, SparseLayoutId::lt_cscr>*>(b.obj));
       else emit(*static_cast<SparseLayout<I, SparseLayoutId::lt_banded>*>(b.obj));
     });
   }
@@ -267,6 +270,7 @@ static void destroy_layout(int l)
   {
     typedef typename decltype(itag)::type I;
     if(b.lk == 0) delete static_cast<SparseLayout<I, SparseLayoutId::lt_csr>*>(b.obj);
+    else if(b.lk == 2) delete static_cast<SparseLayout<I, SparseLayoutId::lt_cscr>*>(b.obj);
     else delete static_cast<SparseLayout<I, SparseLayoutId::lt_banded>*>(b.obj);
   });
   b.obj = nullptr;
@@ -590,8 +594,8 @@ static bool do_op(Cur& c, std::ostream& o)
     int l = (int)c.i64(), a = (int)c.i64(); need_alive(a);
     if(l < 0 || l >= NLAY) bad("lay: slot");
     Box& sa = slots[a]; LBox& sl = lays[l];
-    if(sa.kind < 2 || sa.kind > 4) bad("lay: kind");
-    int lk = (sa.kind == 4) ? 1 : 0;
+    if(sa.kind < 2 || sa.kind > 6 || sa.kind == 5) bad("lay: kind");
+    int lk = (sa.kind == 4) ? 1 : (sa.kind == 6) ? 2 : 0;
     if(sl.alive() && (sl.lk != lk || sl.it != sa.it)) bad("lay: type mismatch");
     with_kind(sa.kind, [&](auto k) { with_di(sa.dt, sa.it, [&](auto dtag, auto itag)
     {
@@ -614,7 +618,7 @@ static bool do_op(Cur& c, std::ostream& o)
     LBox& sl = lays[l]; Box& sa = slots[a];
     bool fresh = !sa.alive();
     int kind = fresh ? k0 : sa.kind, dt = fresh ? dt0 : sa.dt;
-    if(kind < 2 || kind > 4 || ((kind == 4) != (sl.lk == 1))) bad("mlay: kind mismatch");
+    if(kind < 2 || kind > 6 || kind == 5 || ((kind == 4) ? 1 : (kind == 6) ? 2 : 0) != sl.lk) bad("mlay: kind mismatch");
     if(!fresh && sa.it != sl.it) bad("mlay: index type mismatch");
     with_kind(kind, [&](auto k) { with_di(dt, sl.it, [&](auto dtag, auto itag)
     {
@@ -648,6 +652,7 @@ static bool do_op(Cur& c, std::ostream& o)
         else *static_cast<LT*>(ld.obj) = std::move(S);
       };
       if(ls.lk == 0) go((SparseLayout<I, SparseLayoutId::lt_csr>*)nullptr);
+      else if(ls.lk == 2) go((SparseLayout<I, SparseLayoutId::lt_cscr>*)nullptr);
       else go((SparseLayout<I, SparseLayoutId::lt_banded>*)nullptr);
     });
   }
@@ -685,6 +690,7 @@ static bool do_op(Cur& c, std::ostream& o)
           }
         };
         if(b.lk == 0) go((SparseLayout<I, SparseLayoutId::lt_csr>*)nullptr);
+        else if(b.lk == 2) go((SparseLayout<I, SparseLayoutId::lt_cscr>*)nullptr);
         else go((SparseLayout<I, SparseLayoutId::lt_banded>*)nullptr);
       });
     }
@@ -796,6 +802,12 @@ static bool do_op(Cur& c, std::ostream& o)
 static void handle(const verif::Tokens& t, std::ostream& o)
 {
   Cur c(t);
+  if(!c.done() && t[0] == "SLOTS")
+  {
+    c.str();
+    int n = (int)c.i64();
+    NSLOT = (n >= 1 && n <= MAXSLOT) ? n : 8;
+  }
   o << "H";
   try
   {
